@@ -788,11 +788,13 @@ class RefPaths:
         self.exits = []         # (kind, line, ledger, detail)
         self.steps = 0
         self.container_vars = set()
+        self.container_base = {}     # loop / item variable -> name of the container it walks
 
     def _prepass(self, body):
         """Names that stand for items of containers / pointer walks (loop targets, x = a[i],
         x = a.b): references held through them are container-mediated."""
         cv = self.container_vars
+        cb = self.container_base
 
         class V(TreeVisitor):
             def visit_Node(s, n):
@@ -800,12 +802,28 @@ class RefPaths:
 
             def visit_ForInStatNode(s, n):
                 t = n.target
+                it = getattr(n.iterator, 'sequence', None)
+                while isinstance(it, (ExprNodes.SimpleCallNode, ExprNodes.GeneralCallNode)):
+                    # table.values(), enumerate(vector), ...: the first name inside
+                    fn_ = it.function
+                    if isinstance(fn_, ExprNodes.AttributeNode):
+                        it = fn_.obj
+                    elif getattr(it, 'args', None):
+                        it = it.args[0]
+                    else:
+                        break
+                base = re.match(r'[A-Za-z_]\w*', _etext(it) if it is not None else '')
+                base = base.group(0) if base else None
                 if isinstance(t, ExprNodes.NameNode):
                     cv.add(t.name)
+                    if base:
+                        cb[t.name] = base
                 elif isinstance(t, ExprNodes.TupleNode):
                     for a in t.args:
                         if isinstance(a, ExprNodes.NameNode):
                             cv.add(a.name)
+                            if base:
+                                cb[a.name] = base
                 s.visitchildren(n)
 
             def visit_SingleAssignmentNode(s, n):
@@ -815,6 +833,10 @@ class RefPaths:
                 if isinstance(n.lhs, ExprNodes.NameNode) and isinstance(
                         r, (ExprNodes.IndexNode, ExprNodes.AttributeNode)):
                     cv.add(n.lhs.name)
+                    if isinstance(r, ExprNodes.IndexNode):
+                        b_ = re.match(r'[A-Za-z_]\w*', _etext(r.base))
+                        if b_:
+                            cb[n.lhs.name] = b_.group(0)
                 s.visitchildren(n)
         V().visit(body)
 
@@ -866,6 +888,17 @@ class RefPaths:
             elif f in self.DEREF and c.args:
                 a = _etext(c.args[-1])
                 led[a] = led.get(a, 0) - 1
+                an = c.args[-1]
+                while isinstance(an, ExprNodes.TypecastNode):
+                    an = an.operand
+                base = None
+                if isinstance(an, ExprNodes.IndexNode):
+                    b_ = re.match(r'[A-Za-z_]\w*', _etext(an.base))
+                    base = b_.group(0) if b_ else None
+                elif isinstance(an, ExprNodes.NameNode):
+                    base = self.container_base.get(an.name)
+                if base:
+                    led['<crel>' + base] = led.get('<crel>' + base, 0) + 1
                 if f in SHALLOW_DEREF:
                     # releases the node WITHOUT releasing its successors when the count reaches
                     # zero: legitimate only for handing a floating result back to the caller
@@ -895,6 +928,9 @@ class RefPaths:
                     led[a] = led.get(a, 0) - 1
                     c = _etext(st.lhs)
                     led[c] = led.get(c, 0) + 1
+                    b_ = re.match(r'[A-Za-z_]\w*', _etext(st.lhs.base))
+                    if b_:
+                        led['<park>' + b_.group(0)] = 1
         return led
 
     def _cond_key(self, c):
